@@ -449,6 +449,10 @@ func drawLookup(r *rng) map[string]string {
 	for _, k := range []string{"A", "B_1", "_u", "Ab9", "c.d", "x-y"} {
 		if r.p(1, 3) {
 			look[k] = "look-" + k
+			if r.p(1, 3) {
+				// inherited values are taken as they are, whatever they look like
+				look[k] = "pa$$w ${L1} $A #x '" + k
+			}
 		}
 	}
 	if r.p(3, 4) {
